@@ -106,3 +106,51 @@ C("_Tree.setdefault", cls=TREE, params={"key": "any", "value": "any"}, returns=[
 C("TreeSet.add", cls="TreeSet", params={"key": "any"}, returns=["bool", "int", "none"],
   ghost={"havoc_calls": {"_set": {"returns": SET_RET}}, "at_call": {"_set": CONVERTED_KEY}, "no_frame": True},
   ensures={}, raises={"*": {}, "TypeError": {}}, props=["C13", "C09"])
+
+# ---- C18 / C03: the structural checker of the Python tree -------------------
+C("_Tree.size", cls=TREE, params={}, requires={}, returns="int",
+  ensures={"len": "result == len(self._data)"}, modifies=[], props=["C01", "C03", "C18"], ghost={"no_compare": True})
+
+N = "len(self._data)"
+KIDS_OK = ("forall(0, " + N + ", lambda i: self._data[i].child is not None and cls_id(self._data[i].child) == cls_id(self._data[0].child) "
+           "and nsize(self._data[i].child) != 0)")
+KIND_OK = "(cls_id(self._data[0].child) == cls_id(self) or cls_id(self._data[0].child) == bucket_cls_of(self))"
+TREE_KIDS = "cls_id(self._data[0].child) == cls_id(self)"
+LEAF_KIDS = "(cls_id(self._data[0].child) != cls_id(self) and cls_id(self._data[0].child) == bucket_cls_of(self))"
+CHAIN_OK = ("forall(0, " + N + " - 1, lambda i: self._data[i].child._next is self._data[i + 1].child) and "
+            "self._data[" + N + " - 1].child._next is nextbucket")
+KIDS_CHECKED = ("forall(0, " + N + " - 1, lambda i: checked(self._data[i].child, self._data[i + 1].child._firstbucket)) and "
+                "checked(self._data[" + N + " - 1].child, nextbucket)")
+LOCAL_OK = ("(" + N + " == 0 and self._firstbucket is None) or (" + N + " > 0 and self._firstbucket is not None and " + KIDS_OK + " and " + KIND_OK +
+            " and implies(" + TREE_KIDS + ", self._firstbucket is self._data[0].child._firstbucket)"
+            " and implies(" + LEAF_KIDS + ", self._firstbucket is self._data[0].child and " + CHAIN_OK + "))")
+
+C("_Tree._check", cls=TREE, params={"nextbucket": ["none", "ref"]}, returns="none",
+  requires={},
+  ensures={
+      "empty_tree": "implies(" + N + " == 0, self._firstbucket is None)",
+      "first_bucket": "implies(" + N + " > 0, self._firstbucket is not None)",
+      "children_uniform_nonempty": "implies(" + N + " > 0, " + KIDS_OK + ")",
+      "children_kind": "implies(" + N + " > 0, " + KIND_OK + ")",
+      "first_bucket_of_trees": "implies(" + N + " > 0 and " + TREE_KIDS + ", self._firstbucket is self._data[0].child._firstbucket)",
+      "children_checked_with_their_successor": "implies(" + N + " > 0 and " + TREE_KIDS + ", " + KIDS_CHECKED + ")",
+      "first_bucket_of_leaves": "implies(" + N + " > 0 and " + LEAF_KIDS + ", self._firstbucket is self._data[0].child)",
+      "leaf_chain": "implies(" + N + " > 0 and " + LEAF_KIDS + ", " + CHAIN_OK + ")",
+  },
+  raises={"AssertionError": {}, "*": {}},
+  modifies=[],
+  ghost={"no_compare": True,
+         "learn": {"checked": "checked(self, nextbucket)"}, "at_raise_local_only": True,
+         "at_raise": {"AssertionError": {"only_if_a_clause_fails": "not (" + LOCAL_OK + ")"}}},
+  loops=[
+      {"inv": {"alias": "data is self._data and assert_ is not None",
+               "counter": "0 <= i__next and i__next <= len(data)",
+               "so_far": "forall(0, i__next, lambda j: data[j].child is not None and cls_id(data[j].child) == cls_id(data[0].child) and nsize(data[j].child) != 0)"}},
+      {"inv": {"alias": "data is self._data",
+               "counter": "0 <= i__next and i__next <= len(data) - 1 and i__hi == len(data) - 1",
+               "so_far": "forall(0, i__next, lambda j: checked(data[j].child, data[j + 1].child._firstbucket))"}},
+      {"inv": {"alias": "data is self._data",
+               "counter": "0 <= i__next and i__next <= len(data) - 1 and i__hi == len(data) - 1",
+               "so_far": "forall(0, i__next, lambda j: data[j].child._next is data[j + 1].child)"}},
+  ],
+  props=["C18", "C03"])
